@@ -4,7 +4,8 @@
    Which boxes form a stacking context (CSS 2.1 9.9.1 + css-color opacity + css-transforms; WeasyPrint also
    lets overflow != visible form one, which is kept here and reported as a deviation):
      positioned with z-index != auto | grid item with z-index != auto | opacity < 1 | transform | overflow.
-   z-index applies to positioned boxes and grid items only (9.9.1 "Applies to: positioned elements").
+   z-index applies to positioned boxes, grid items and flex items only (9.9.1 "Applies to: positioned elements",
+   css-grid 6.4, css-flexbox 4.3).
 
    Appendix E, for a box that forms (or is treated as forming) a stacking context:
      1-2  its own background and borders
@@ -26,7 +27,7 @@ Open Scope Z_scope.
 Definition positioned (i : info) : bool := negb (static i).
 Definition creates_ctx (i : info) : bool :=
   (positioned i && has_z i) || (git i && has_z i) || opa i || trf i || ovf i.
-Definition z_applies (i : info) : bool := positioned i || git i.
+Definition z_applies (i : info) : bool := positioned i || git i || fit i.   (* positioned boxes, grid and flex items *)
 Definition zkey (b : box) : Z := if z_applies (binfo b) then z_of (binfo b) else 0.
 
 (* how a box takes part in the painting of the context it lives in *)
@@ -104,6 +105,11 @@ Definition table_part_bgs (b : box) : list event :=
   | _ => []
   end.
 
+(* in the collapsing border model (CSS 2.1 17.6.2) the borders around a cell belong to the table's border phase:
+   a cell painted as a context paints its background but no border of its own *)
+Definition css_own_border (i : info) : list event :=
+  if is_cell (knd i) && col i then [] else [EPaint (bid i) LBorder].
+
 Fixpoint appendix_E (f : nat) (m : smode) (b : box) {struct f} : list event :=
   match f with
   | O => []
@@ -134,7 +140,7 @@ Fixpoint appendix_E (f : nat) (m : smode) (b : box) {struct f} : list event :=
         | _ =>
           (if opa i then [EOpen id BGroup] else []) ++
           (match tm i with TRegular => [ESet id GTransform] | _ => [] end) ++
-          (if is_inline (knd i) || is_page (knd i) then [] else [EPaint id LBg; EPaint id LBorder]) ++
+          (if is_inline (knd i) || is_page (knd i) then [] else EPaint id LBg :: css_own_border i) ++
           table_part_bgs b ++
           EOpen id BInner ::
           (if ovf i && negb (is_page (knd i)) then [ESet id GClip] else []) ++
@@ -181,8 +187,6 @@ Definition inline_level_kind (k : kind) : bool :=
   match k with KInline | KText | KInlineReplaced => true | _ => false end.
 Definition ctx_root_kind (k : kind) : bool := point2_class k || is_inline k || is_page k.
 
-(* no context-forming box carries a non-zero z-index that does not apply to it (not positioned, not a grid item) *)
-Definition wf_z (i : info) : bool := z_applies i || negb (creates_ctx i) || (z_of i =? 0).
 (* boxes painted as contexts are of the classes draw_stacking_context paints *)
 Definition wf_ctx_kind (root : bool) (i : info) : bool :=
   negb (root || negb (in_flow i)) || ctx_root_kind (knd i).
@@ -201,14 +205,14 @@ Definition wf_kids (b : box) : bool :=
                         negb (inline_level_kind (knd (binfo c)))) st
   end.
 Definition wf_node (root : bool) (b : box) : bool :=
-  wf_z (binfo b) && wf_ctx_kind root (binfo b) && wf_kids b.
+  wf_ctx_kind root (binfo b) && wf_kids b.
 
 Fixpoint wf_from (root : bool) (b : box) : bool :=
   match b with Box i kids => wf_node root b && forallb (wf_from false) kids end.
 Definition wf (b : box) : bool := wf_from true b.
 Definition wf_page (page : box) : bool :=
   is_page (knd (binfo page)) &&
-  forallb (fun c => wf c && (z_applies (binfo c) || (z_of (binfo c) =? 0))) (bkids page).
+  forallb wf (bkids page).
 
 (* no transform with determinant 0 (such a subtree is legitimately not painted at all) *)
 Fixpoint regular (b : box) : bool :=
@@ -294,7 +298,7 @@ Definition ctx_body (c : pnode) : list event :=
   | PB _ _ => []
   end.
 Definition ctx_own_bg (c : pnode) : list event :=
-  if point2_class (knd (pinfo c)) then [EPaint (pid c) LBg; EPaint (pid c) LBorder] else [].
+  if point2_class (knd (pinfo c)) then EPaint (pid c) LBg :: own_border (pinfo c) else [].
 Definition ctx_clip (c : pnode) : list event :=
   if ovf (pinfo c) && negb (is_page (knd (pinfo c))) then [ESet (pid c) GClip] else [].
 Definition ctx_outlines (c : pnode) : list event :=
